@@ -110,12 +110,17 @@ func (t *itr) ctype(tp types.Type) string {
 	switch {
 	case n == "Mask":
 		return "Mask"
-	case n == "ID":
+	case n == "ID" || n == "ResID":
 		return "N"
 	case t.isRec[n]:
 		return "go_" + n
 	}
 	switch u := tp.Underlying().(type) {
+	case *types.Interface:
+		if u.Empty() {
+			// any: nil or an opaque non-nil value (a number standing for the pointer)
+			return "(option N)"
+		}
 	case *types.Slice:
 		return "(slice " + t.ctype(u.Elem()) + ")"
 	case *types.Array:
@@ -143,12 +148,16 @@ func (t *itr) zero(tp types.Type) string {
 	switch {
 	case n == "Mask":
 		return "mask_zero"
-	case n == "ID":
+	case n == "ID" || n == "ResID":
 		return "0"
 	case t.isRec[n]:
 		return "zero_" + n
 	}
 	switch u := tp.Underlying().(type) {
+	case *types.Interface:
+		if u.Empty() {
+			return "None"
+		}
 	case *types.Slice:
 		return "s_nil"
 	case *types.Array:
@@ -177,28 +186,59 @@ func (t *itr) structOf(name string) *types.Struct {
 	return st
 }
 
+// fieldType: the Coq type of a struct field, "" if the field's type is outside the subset (the
+// field is then left out of the record; any use of it fails the translation of that function)
+func (t *itr) fieldType(f *types.Var) (ct string) {
+	defer func() {
+		if r := recover(); r != nil {
+			if _, ok := r.(unsupported); ok {
+				ct = ""
+				return
+			}
+			panic(r)
+		}
+	}()
+	return t.ctype(f.Type())
+}
+
+func (t *itr) fields(name string) []*types.Var {
+	st := t.structOf(name)
+	var out []*types.Var
+	for i := 0; i < st.NumFields(); i++ {
+		if t.fieldType(st.Field(i)) != "" {
+			out = append(out, st.Field(i))
+		}
+	}
+	return out
+}
+
 func (t *itr) record(name string) string {
 	st := t.structOf(name)
+	fs := t.fields(name)
 	var fields, zeros []string
+	var b strings.Builder
 	for i := 0; i < st.NumFields(); i++ {
-		f := st.Field(i)
+		if t.fieldType(st.Field(i)) == "" {
+			fmt.Fprintf(&b, "(* field %s.%s : %s is outside the subset and left out *)\n", name, st.Field(i).Name(), st.Field(i).Type())
+		}
+	}
+	for _, f := range fs {
 		fields = append(fields, fmt.Sprintf("%s_%s : %s", name, f.Name(), t.ctype(f.Type())))
 		zeros = append(zeros, t.zero(f.Type()))
 	}
-	var b strings.Builder
 	fmt.Fprintf(&b, "Record go_%s := mk_%s { %s }.\n", name, name, strings.Join(fields, "; "))
 	fmt.Fprintf(&b, "Definition zero_%s : go_%s := mk_%s %s.\n", name, name, name, strings.Join(zeros, " "))
-	for i := 0; i < st.NumFields(); i++ {
+	for i, fi := range fs {
 		args := []string{}
-		for j := 0; j < st.NumFields(); j++ {
+		for j, fj := range fs {
 			if j == i {
 				args = append(args, "v")
 			} else {
-				args = append(args, fmt.Sprintf("(%s_%s r)", name, st.Field(j).Name()))
+				args = append(args, fmt.Sprintf("(%s_%s r)", name, fj.Name()))
 			}
 		}
 		fmt.Fprintf(&b, "Definition set_%s_%s (r : go_%s) (v : %s) : go_%s := mk_%s %s.\n",
-			name, st.Field(i).Name(), name, t.ctype(st.Field(i).Type()), name, name, strings.Join(args, " "))
+			name, fi.Name(), name, t.ctype(fi.Type()), name, name, strings.Join(args, " "))
 	}
 	b.WriteString("\n")
 	return b.String()
@@ -361,6 +401,15 @@ func (t *itr) constVal(e ast.Expr) (string, bool) {
 	return v, ok
 }
 
+func (t *itr) checkField(rec, field string) {
+	for _, f := range t.fields(rec) {
+		if f.Name() == field {
+			return
+		}
+	}
+	fail("field %s.%s is outside the subset", rec, field)
+}
+
 func (t *itr) fieldName(x *ast.SelectorExpr) (string, bool) {
 	sel, ok := t.p.info.Selections[x]
 	if !ok || sel.Kind() != types.FieldVal {
@@ -378,7 +427,10 @@ func (t *itr) expr(e ast.Expr) string {
 		return t.expr(x.X)
 	case *ast.Ident:
 		if x.Name == "nil" {
-			fail("nil")
+			if i, ok := t.typeOf(e).Underlying().(*types.Interface); ok && i.Empty() {
+				return "None"
+			}
+			fail("nil of type %s", t.typeOf(e))
 		}
 		return mangle(x.Name)
 	case *ast.StarExpr:
@@ -399,12 +451,13 @@ func (t *itr) expr(e ast.Expr) string {
 		if !ok {
 			fail("selector %s", x.Sel.Name)
 		}
-		if rt == "ID" && x.Sel.Name == "id" {
+		if (rt == "ID" || rt == "ResID") && x.Sel.Name == "id" {
 			return t.expr(x.X)
 		}
 		if !t.isRec[rt] {
 			fail("field of untranslated type %s", rt)
 		}
+		t.checkField(rt, x.Sel.Name)
 		return fmt.Sprintf("(%s_%s %s)", rt, x.Sel.Name, t.expr(x.X))
 	case *ast.IndexExpr:
 		c, i := t.expr(x.X), t.expr(x.Index)
@@ -463,6 +516,19 @@ func (t *itr) binary(x *ast.BinaryExpr, e ast.Expr) string {
 			return fmt.Sprintf("(%s && %s)", a, b)
 		}
 		return fmt.Sprintf("(%s || %s)", a, b)
+	}
+	if (x.Op == token.EQL || x.Op == token.NEQ) && (isNil(x.X) || isNil(x.Y)) {
+		v := x.X
+		if isNil(x.X) {
+			v = x.Y
+		}
+		if i, ok := t.typeOf(v).Underlying().(*types.Interface); !ok || !i.Empty() {
+			fail("nil comparison of a value of type %s", t.typeOf(v))
+		}
+		if x.Op == token.EQL {
+			return fmt.Sprintf("(negb (is_some %s))", t.expr(v))
+		}
+		return fmt.Sprintf("(is_some %s)", t.expr(v))
 	}
 	a, b := t.expr(x.X), t.expr(x.Y)
 	w := t.width(t.typeOf(e))
@@ -563,6 +629,9 @@ func (t *itr) composite(x *ast.CompositeLit) string {
 		fail("composite literal of type %s", tp)
 	}
 	st := t.structOf(n)
+	if len(t.fields(n)) != st.NumFields() {
+		fail("composite literal of %s, which has fields outside the subset", n)
+	}
 	vals := make([]string, st.NumFields())
 	for i := range vals {
 		vals[i] = t.zero(st.Field(i).Type())
@@ -688,6 +757,7 @@ func (t *itr) decompose(e ast.Expr, pre *[]string) (string, []acc) {
 		if !ok || !t.isRec[rt] {
 			fail("assignment through selector %s", x.Sel.Name)
 		}
+		t.checkField(rt, x.Sel.Name)
 		b, as := t.decompose(x.X, pre)
 		return b, append(as, acc{field: rt + "_" + x.Sel.Name, setter: "set_" + rt + "_" + x.Sel.Name})
 	case *ast.IndexExpr:
@@ -941,7 +1011,16 @@ func (t *itr) assign(lhs []ast.Expr, rhs []ast.Expr, op token.Token, k func() st
 	}
 	vals := make([]string, len(rhs))
 	for i, r := range rhs {
-		v := t.expr(r)
+		var v string
+		if isNil(r) {
+			if it, ok := t.typeOf(lhs[i]).Underlying().(*types.Interface); ok && it.Empty() && op == token.ASSIGN {
+				v = "None"
+			} else {
+				fail("nil assigned to a value of type %s", t.typeOf(lhs[i]))
+			}
+		} else {
+			v = t.expr(r)
+		}
 		if op != token.ASSIGN && op != token.DEFINE {
 			v = t.combine(op, pathCur(targets[i].base, targets[i].as), v, t.typeOf(lhs[i]))
 		}
@@ -1242,6 +1321,8 @@ var impGroups = []impGroup{
 		{"", "newIntPool"}, {"intPool", "getNew"}, {"intPool", "Get"}, {"intPool", "Recycle"}, {"intPool", "Reset"}}, false},
 	{"GoBitSet.v", "ecs/bitset.go", []string{"bitSet"}, []fnSpec{
 		{"bitSet", "Get"}, {"bitSet", "Set"}, {"bitSet", "Reset"}, {"bitSet", "ExtendTo"}}, false},
+	{"GoResources.v", "ecs/resources.go: the storage part of Resources (the registry field is outside the subset); a value of type any is nil or an opaque number", []string{"Resources"}, []fnSpec{
+		{"Resources", "Add"}, {"Resources", "Remove"}, {"Resources", "Get"}, {"Resources", "Has"}, {"Resources", "reset"}}, false},
 	{"GoPaged.v", "ecs/util.go pagedSlice[T]; the elements are opaque values, represented by numbers (zero value 0)", []string{"pagedSlice"}, []fnSpec{
 		{"pagedSlice", "Add"}, {"pagedSlice", "Get"}, {"pagedSlice", "Set"}, {"pagedSlice", "Len"}}, false},
 }
